@@ -184,64 +184,67 @@ def run():
     finish(oblig.check_paths(e_open, ps, "open: the tree name is formatted from both the hash function and the transform", open_prop, fns(),
                              key="cache:tree-name", allow=("return", "panic", "diverge", "bound")), "tree-name")
 
-    # ---- hashers
-    eh = oblig.engine(prog, unroll=0, inline=INL, extra=PURE)
+    # ---- hashers: helpers of hasher.rs are inlined down to the leaves (HashCache::get/put/key, FileMetadata::new, open,
+    # stream_hash, Transform::run), so the obligations do not depend on how the hashers are factored into functions
+    import optsum
+    LEAF = r"(^|::)(open|stream_hash|evict_page_cache_if_low_mem|format_output_stream)$|HashCache::|FileMetadata::new$|Transform::run$|::warn$"
+
+    def inl(c, t):
+        return oblig.defined_in(prog, t, "hasher.rs") and not re.search(LEAF, c) and not re.search(LEAF, t.name)
+    ex = dict(optsum.SUMMARIES)
+    ex.update(PURE)
+    eh = oblig.engine(prog, unroll=0, inline=inl, extra=ex)
     FH = lambda n: prog.method("FileHasher", n)
+
+    def cache_protocol(p, transformed):
+        """None: irrelevant path; else python bool"""
+        if p.status != "return" or not isinstance(p.result, EnumV):
+            return None
+        get, put = called(p, r"HashCache::get$"), called(p, r"HashCache::put$")
+        key, md = called(p, r"HashCache::key$"), called(p, r"FileMetadata::new$")
+        sh = called(p, r"(^|::)stream_hash$")
+        if not get:
+            # no cache / no metadata / no key: nothing may be stored either
+            return not put
+        if len(get) != 1 or len(key) != 1 or len(md) != 1:
+            return False
+        ga = get[0].info["args"]
+        # the entry is looked up under the key built from this chunk and the metadata just read
+        key_ok = ga[1] == key[0].ret.name + "@Ok.0" and ga[2] == md[0].ret.name + "@Ok.0" and key[0].info["args"][1] == "chunk" \
+            and key[0].info["args"][2] == ga[2]
+        if not key_ok:
+            return False
+        if p.result.variant != "Ok":
+            return not put
+        pl = p.result.fields.get(0)
+        if isinstance(pl, Lazy) and pl.name.startswith(get[0].ret.name + "@Ok"):
+            # hit: the stored value is returned unchanged, nothing is computed or stored
+            want = get[0].ret.name + ("@Ok.0@Some.0" if transformed else "@Ok.0@Some.0.1")
+            return pl.name == want and not put and not sh
+        if len(put) != 1 or len(sh) != 1 or not isinstance(sh[0].ret, Lazy):
+            return False
+        pa = put[0].info["args"]
+        comp = sh[0].ret.name + "@Ok.0"
+        same_entry = pa[1] == ga[1] and pa[2] == ga[2]
+        if transformed:
+            # the stored data length is the length of the transform *output*
+            stored_ok = pa[3] == comp + ".0" and pa[4] == comp + ".1" and isinstance(pl, Lazy) and pl.name == comp
+        else:
+            stored_ok = pa[3] == "chunk*.len" and pa[4] == comp + ".1" and isinstance(pl, Lazy) and pl.name == comp + ".1"
+        return same_entry and stored_ok
+
     ps = eh.run(FH("hash_file"))
 
     def hf_prop(p):
-        if p.status != "return" or not isinstance(p.result, EnumV):
-            return None
-        lh = called(p, r"FileHasher::load_hash$")
-        sh = called(p, r"FileHasher::store_hash$")
-        fh = called(p, r"(^|::)file_hash$")
-        if len(lh) != 1:
-            return z3.BoolVal(False)
-        if p.result.variant != "Ok":
-            return z3.BoolVal(not sh)
-        if not fh:
-            # cache hit: the stored hash is returned, nothing is stored
-            r = p.result.fields.get(0)
-            ok = isinstance(r, Lazy) and r.name.startswith(lh[0].ret.name + "@Some") and not sh
-            return z3.BoolVal(bool(ok))
-        if len(sh) != 1:
-            return z3.BoolVal(False)
-        st = _st(p)
-        same_key = summaries.canon(eh, st, sh[0].args[1]) == summaries.canon(eh, st, lh[0].args[1])
-        same_md = summaries.canon(eh, st, sh[0].args[2]) == summaries.canon(eh, st, lh[0].args[2])
-        ln = summaries.canon(eh, st, sh[0].args[3])
-        hs = summaries.canon(eh, st, sh[0].args[4])
-        computed = fh[0].ret.name if isinstance(fh[0].ret, Lazy) else "?"
-        ok = same_key and same_md and ln.endswith("chunk*.len") and computed in hs and computed in summaries.canon(eh, st, p.result.fields.get(0))
-        return z3.BoolVal(bool(ok))
+        r = cache_protocol(p, False)
+        return None if r is None else z3.BoolVal(bool(r))
     finish(oblig.check_paths(eh, ps, "hash_file: a hit returns the stored hash; a miss stores the computed hash of exactly this chunk under the looked-up key",
                              hf_prop, fns(), key="hasher:hash_file-cache", allow=("return", "panic", "diverge")))
     ps = eh.run(FH("hash_transformed"))
 
     def ht_prop(p):
-        if p.status != "return" or not isinstance(p.result, EnumV):
-            return None
-        lh = called(p, r"FileHasher::load_hash$")
-        sh = called(p, r"FileHasher::store_hash$")
-        st = called(p, r"(^|::)stream_hash$")
-        if len(lh) != 1:
-            return None if not lh else z3.BoolVal(False)
-        if p.result.variant != "Ok":
-            return z3.BoolVal(not sh)
-        s_ = _st(p)
-        if not st:
-            r = p.result.fields.get(0)
-            ok = isinstance(r, Lazy) and r.name.startswith(lh[0].ret.name + "@Some") and not sh
-            return z3.BoolVal(bool(ok))
-        if len(sh) != 1:
-            return z3.BoolVal(False)
-        computed = st[0].ret.name if isinstance(st[0].ret, Lazy) else "?"
-        same_key = summaries.canon(eh, s_, sh[0].args[1]) == summaries.canon(eh, s_, lh[0].args[1])
-        ln = summaries.canon(eh, s_, sh[0].args[3])
-        hs = summaries.canon(eh, s_, sh[0].args[4])
-        # the stored data length is the length of the transform *output* (first component of the computed pair)
-        ok = same_key and ln.startswith(computed) and ln.endswith(".0") and hs.startswith(computed) and computed in summaries.canon(eh, s_, p.result.fields.get(0))
-        return z3.BoolVal(bool(ok))
+        r = cache_protocol(p, True)
+        return None if r is None else z3.BoolVal(bool(r))
     finish(oblig.check_paths(eh, ps, "hash_transformed: a hit returns the stored (length, hash); a miss stores the output length and hash it computed",
                              ht_prop, fns(), key="hasher:hash_transformed-cache", allow=("return", "panic", "diverge", "bound")), "transform-len")
     eng.encoded.update(eh.encoded)
